@@ -68,6 +68,7 @@ from exabgp.rib.route import Route
 
 # IP address validation constants
 EXTENDED_COMMUNITY_TARGET_PARTS = 2  # Target extended community has 2 parts (ASN:value)
+ATTRIBUTE_DATA_MAX = 0xFFFF  # the (extended) length of a path attribute is two octets
 
 
 def prefix(tokeniser: 'Tokeniser') -> IPRange:
@@ -166,6 +167,8 @@ def attribute(tokeniser: 'Tokeniser') -> GenericAttribute:
     if len(data) % 2:
         raise ValueError(f"'{data}' has invalid length\n  Hexadecimal data must have even number of digits")
     data_bytes: bytes = b''.join(bytes([int(data[_ : _ + 2], 16)]) for _ in range(2, len(data), 2))
+    if len(data_bytes) > ATTRIBUTE_DATA_MAX:
+        raise ValueError('attribute data is too long\n  The length of an attribute is at most 65535 bytes')
 
     end = tokeniser()
     if end != ']':
@@ -272,6 +275,9 @@ def as_path(tokeniser: 'Tokeniser') -> AS2Path:
 
                 # Filter out any ASN that snuck in, only keep segment types
                 segments = [seg for seg in as_path if isinstance(seg, (SEQUENCE, CONFED_SEQUENCE, SET, CONFED_SET))]
+                # four octets per AS plus two per segment of at most 255: it must fit the length of an attribute
+                if sum(4 * len(seg) + 2 * (len(seg) // 255 + 1) for seg in segments) > ATTRIBUTE_DATA_MAX:
+                    raise ValueError('as-path is too long\n  It does not fit in one attribute (65535 bytes)')
                 return AS2Path.make_aspath(segments, asn4=True)
 
             try:
@@ -408,13 +414,20 @@ def community(tokeniser: 'Tokeniser') -> Communities:
 
     value = tokeniser()
     if value == '[':
+        # collected then packed once (add() unpacks, sorts and packs again for every element), and refused as soon
+        # as they can not fit the two-octet length of an attribute: 16384 communities were accepted, after hours,
+        # and the route could not be encoded (struct.error)
+        found: list[Community] = []
         while True:
             value = tokeniser()
             if value == ']':
                 break
-            communities.add(_community(value))
-    else:
-        communities.add(_community(value))
+            found.append(_community(value))
+            if len(found) * 4 > ATTRIBUTE_DATA_MAX:
+                raise ValueError('too many communities\n  They do not fit in one attribute (65535 bytes)')
+        return Communities.make_communities(found)
+
+    communities.add(_community(value))
 
     return communities
 
@@ -458,16 +471,23 @@ def large_community(tokeniser: 'Tokeniser') -> LargeCommunities:
 
     value = tokeniser()
     if value == '[':
+        # collected then packed once, and refused as soon as they can not fit the two-octet length of an attribute
+        found: list[LargeCommunity] = []
+        seen: set[LargeCommunity] = set()
         while True:
             value = tokeniser()
             if value == ']':
                 break
             lc = _large_community(value)
-            if lc in large_communities.communities:
+            if lc in seen:
                 continue
-            large_communities.add(lc)
-    else:
-        large_communities.add(_large_community(value))
+            seen.add(lc)
+            found.append(lc)
+            if len(found) * 12 > ATTRIBUTE_DATA_MAX:
+                raise ValueError('too many large communities\n  They do not fit in one attribute (65535 bytes)')
+        return LargeCommunities.make_large_communities(found)
+
+    large_communities.add(_large_community(value))
 
     return large_communities
 
@@ -610,11 +630,15 @@ def extended_community(tokeniser: 'Tokeniser') -> ExtendedCommunities:
 
     value = tokeniser()
     if value == '[':
+        count = 0
         while True:
             value = tokeniser()
             if value == ']':
                 break
             communities.add(_extended_community(value))
+            count += 1
+            if count * 8 > ATTRIBUTE_DATA_MAX:
+                raise ValueError('too many extended communities\n  They do not fit in one attribute (65535 bytes)')
     else:
         communities.add(_extended_community(value))
 
